@@ -84,7 +84,7 @@ def check(run):
     keys = QUICK if run.tier == "quick" else sorted(k for k in c.contracts if k.startswith("gen:"))
     for k in keys:
         verify.verify(run, c.E, c.contracts[k], crosscheck=False)
-    verify.verify(run, c.E, c.contracts["io:treeinfo.TreeInfo.dump"], only=("validates_and_serialises_before_writing",
+    verify.verify(run, c.E, c.contracts["io:treeinfo.TreeInfo.dump"], only=("serialises_before_writing",
                                                                            "writes_serialised_data_to_destination"))
     with run.obligation("treeinfo.TreeInfo.dump#main_variant_passed_through", "ast", ["productmd.treeinfo.TreeInfo.dump",
                                                                                       "productmd.treeinfo.TreeInfo.serialize"]) as ob:
